@@ -390,6 +390,12 @@ def _walk_shapes(w, shapes, path, depth=0):
             if depth < 2:
                 _walk_shapes(w, sh.shapes, sp + ".shapes", depth + 1)
         elif isinstance(sh, GraphicFrame):
+            try:
+                ok_table = sh.has_table and all(len(r.cells) == len(sh.table.columns) for r in sh.table.rows)
+            except Exception:  # noqa  (thinned decks: rows with missing cells)
+                ok_table = False
+            if sh.has_table and not ok_table:
+                continue
             if sh.has_table:
                 t = sh.table
                 tp = sp + ".table"
